@@ -9,3 +9,63 @@ fn smoke_time() {
     let dt = DateTime::new(86399);
     assert(valid(dt));
 }
+
+// ---- property-level lemmas (C16): the broken-down time is *the* civil date-time of its instant
+pub proof fn lemma_dby_mono(a: int, b: int)
+    requires 1 <= a <= b
+    ensures dby(a) <= dby(b), a < b ==> dby(a) + 365 <= dby(b)
+    decreases b - a
+{
+    if a < b {
+        lemma_dby_mono(a, b - 1);
+        lemma_dby_step(b - 1);
+    }
+}
+// a valid date lies inside its own year
+pub proof fn lemma_days_in_year(dt: DateTime)
+    requires valid(dt)
+    ensures dby(dt.year as int) <= days(dt) < dby(dt.year + 1)
+{
+    lemma_dbm(dt.year as int);
+    lemma_dby_step(dt.year as int);
+}
+// injectivity: two valid date-times that denote the same second are the same date-time, hence
+// "the result has the same seconds" means "the same fields as converting, adding, converting back"
+pub proof fn thm_secs_injective(a: DateTime, b: DateTime)
+    requires valid(a), valid(b), secs(a) == secs(b)
+    ensures a.year == b.year, a.month == b.month, a.day == b.day, a.hour == b.hour, a.min == b.min, a.sec == b.sec
+{
+    assert(days(a) == days(b) && a.hour == b.hour && a.min == b.min && a.sec == b.sec) by {
+        // mixed-radix digits are unique
+        let da = days(a); let db = days(b);
+        assert(a.sec == b.sec) by { assert(secs(a) % 60 == a.sec); assert(secs(b) % 60 == b.sec); }
+        assert(a.min == b.min) by { assert((secs(a) / 60) % 60 == a.min); assert((secs(b) / 60) % 60 == b.min); }
+        assert(a.hour == b.hour) by { assert((secs(a) / 3600) % 24 == a.hour); assert((secs(b) / 3600) % 24 == b.hour); }
+        assert(da == db) by { assert(secs(a) / 86400 == da); assert(secs(b) / 86400 == db); }
+    }
+    lemma_days_in_year(a);
+    lemma_days_in_year(b);
+    if a.year < b.year { lemma_dby_mono(a.year + 1, b.year as int); }
+    if b.year < a.year { lemma_dby_mono(b.year + 1, a.year as int); }
+    assert(a.year == b.year);
+    lemma_dbm(a.year as int);
+    // same year, same day-of-year => same month and day (dbm is strictly increasing in the month)
+    assert(a.month == b.month);
+}
+// every instant before 10000-01-01T00:00:00Z has a four-digit year
+pub proof fn thm_year_four_digits(dt: DateTime)
+    requires valid(dt), secs(dt) < 253402300800
+    ensures dt.year <= 9999
+{
+    lemma_days_in_year(dt);
+    assert(dby(10000) == 2932897) by (compute);
+    if dt.year >= 10000 { lemma_dby_mono(10000, dt.year as int); }
+}
+
+// vacuity canary -- must FAIL
+fn canary_time(d: Duration) {
+    proof { axiom_i64_try_from_u64(); lemma_dbm(2000); lemma_dby_step(2000); }
+    let s = d.as_secs();
+    let x = i64::try_from(s);
+    assert(false);
+}
